@@ -59,7 +59,8 @@ func (c *Ctx) directiveConstructors() map[*types.Func]bool {
 				if !ok || len(ret.Results) != 1 {
 					return true
 				}
-				switch r := ast.Unparen(ret.Results[0]).(type) {
+				// the literal may sit in a local that is filled further before it is returned
+				switch r := ast.Unparen(c.CFG(pk, fd.Body).Resolve(ret.Results[0])).(type) {
 				case *ast.UnaryExpr:
 					if _, ok := r.X.(*ast.CompositeLit); ok && r.Op == token.AND {
 						is = true
